@@ -20,6 +20,10 @@ def selection(g, d):
         for i in idx:
             s = ("index", path_expr(p), lit(i if rng.random() < 0.8 else i - n))
             e = s if e is None else ("union", e, s)
+        if rng.random() < 0.3:
+            # an index beyond the end selects nothing: the other victims are still deleted, wherever it stands in the union
+            oob = ("index", path_expr(p), lit(n + rng.choice([0, 1, 5])))
+            e = ("union", e, oob) if rng.random() < 0.5 else ("union", oob, e)
         return e
     if r < 0.65:
         base = path_expr(rng.choice(seqs)) if seqs and rng.random() < 0.7 else ("self",)
@@ -95,7 +99,9 @@ def run(chk):
     reqs = []
     for s, d in fresh:
         reqs.append((("del", s), d))
-        reqs.append((("collect", ("pipe", s, ("path",))), d))
+        # the selection is evaluated read-only, as del evaluates it (a writable `[s | path]` would pad sequences for
+        # indices beyond the end and shift what negative indices mean)
+        reqs.append((("collect", ("as", ("pipe", s, ("path",)), "p", ("var", "p"))), d))
     for s, d in fresh[: len(fresh) // 3]:
         if s[0] == "union":
             reqs.append((("del", ("union", s[2], s[1])), d))
